@@ -85,3 +85,128 @@ fn c02_trailing_bytes_are_rejected() {
     p.push(0);
     assert!(verify::<H>(&msg, &sig, &p).is_err(), "public key with one trailing byte accepted");
 }
+
+// ---- C01/C14: a key using the maximum number of levels must be able to sign ------------------
+#[test]
+fn c01_eight_level_key_signs_and_verifies() {
+    let p = HssParameter::<H>::new(LmotsAlgorithm::LmotsW8, LmsAlgorithm::LmsH5);
+    let (mut sk, vk) = keypair(&[p; 8]);
+    let r = catch_unwind(move || {
+        let sig = sk.try_sign(b"eight levels").expect("signing with a fresh 8-level key");
+        assert!(vk.verify(b"eight levels", &sig).is_ok());
+    });
+    assert!(r.is_ok(), "signing with an 8-level key panicked");
+}
+
+// ---- C11: keygen / sign / lifetime reject malformed inputs instead of crashing ---------------
+#[test]
+fn c11_parameter_list_longer_than_eight_levels_is_refused() {
+    let p = HssParameter::<H>::new(LmotsAlgorithm::LmotsW8, LmsAlgorithm::LmsH5);
+    let seed = Seed::<H>::default();
+    for n in [9usize, 10] {
+        let list = vec![p; n];
+        let s = seed.clone();
+        let r = catch_unwind(move || keygen::<H>(&list, &s, None).is_err());
+        assert!(r.is_ok(), "keygen panicked on a parameter list of {n} levels");
+        assert!(r.unwrap(), "keygen accepted {n} levels");
+    }
+    let r = catch_unwind(|| keygen::<H>(&[], &Seed::<H>::default(), None).is_err());
+    assert!(r.is_ok() && r.unwrap(), "empty parameter list must be refused without panic");
+}
+
+#[test]
+fn c11_every_value_of_a_parameter_byte_is_handled() {
+    let params = [HssParameter::<H>::new(LmotsAlgorithm::LmotsW8, LmsAlgorithm::LmsH5)];
+    let (sk, _vk) = keypair(&params);
+    for pos in [8usize, 9] {
+        for v in 0..=255u8 {
+            let mut blob = sk.as_slice().to_vec();
+            blob[pos] = v;
+            // only cheap shapes are run to completion; everything else must at least not panic
+            // before expansion, which we observe through get_lifetime on 1-level H5 keys
+            let lms = v >> 4;
+            let ots = v & 0xf;
+            // LMS type 1 (4-leaf tree) exists only under the verification hook guard this test is built with
+            let valid = ((5..=9).contains(&lms) || lms == 1) && (1..=4).contains(&ots);
+            if valid && !((lms == 5 || lms == 1) && pos == 8) {
+                continue; // valid but expensive (tall tree or second level): skipped here
+            }
+            if valid && pos == 9 {
+                continue;
+            }
+            let mut calls = 0;
+            let b2 = blob.clone();
+            let r = catch_unwind(move || {
+                let mut cb = |_: &[u8]| {
+                    calls += 1;
+                    Ok(())
+                };
+                let r = sign::<H>(b"m", &b2, &mut cb, None);
+                (r.is_ok(), calls)
+            });
+            assert!(r.is_ok(), "sign panicked with parameter byte {v:#x} at offset {pos}");
+            let (ok, calls) = r.unwrap();
+            if !valid && !(pos == 9 && v == 0xff) {
+                assert!(!ok && calls == 0, "invalid parameter byte {v:#x} at {pos} must be refused");
+            }
+            let r = catch_unwind(|| SigningKey::<H>::from_bytes(&blob).unwrap().get_lifetime().is_ok());
+            assert!(r.is_ok(), "get_lifetime panicked with parameter byte {v:#x} at offset {pos}");
+        }
+    }
+}
+
+#[test]
+fn c11_degenerate_aux_buffers_do_not_crash() {
+    let params = [HssParameter::<H>::new(LmotsAlgorithm::LmotsW8, LmsAlgorithm::LmsH5)];
+    let (sk, vk) = keypair(&params);
+    let mut seed = Seed::<H>::default();
+    for (i, b) in seed.as_mut_slice().iter_mut().enumerate() {
+        *b = (i * 7 + 3) as u8;
+    }
+    for len in [0usize, 1, 2, 3, 4, 5, 35, 36, 37] {
+        for first in [0u8, 1, 0x80, 0xff] {
+            let s = seed.clone();
+            let vk2 = vk.clone();
+            let r = catch_unwind(move || {
+                let mut buf = vec![first; len];
+                let mut slice: &mut [u8] = &mut buf[..];
+                let (_, vk_aux) = keygen::<H>(&params, &s, Some(&mut slice)).expect("keygen with aux");
+                assert!(vk_aux == vk2, "aux must not change the public key");
+            });
+            assert!(r.is_ok(), "keygen panicked / misbehaved with aux of length {len}, first byte {first:#x}");
+            let blob = sk.as_slice().to_vec();
+            let r = catch_unwind(move || {
+                let mut buf = vec![first; len];
+                let mut slice: &mut [u8] = &mut buf[..];
+                let mut cb = |_: &[u8]| Ok(());
+                sign::<H>(b"m", &blob, &mut cb, Some(&mut slice)).is_ok()
+            });
+            assert!(r.is_ok(), "sign panicked with aux of length {len}, first byte {first:#x}");
+            assert!(r.unwrap(), "sign must succeed regardless of the aux buffer");
+        }
+    }
+}
+
+// ---- C15: the fast-verify cost evaluation must work for every hash output length -------------
+#[test]
+fn c15_fast_verify_eval_works_for_truncated_hashes() {
+    use hbs_lms::verif_hooks::coef::coef;
+    fn run<Hh: HashChain>() -> bool {
+        for alg in [LmotsAlgorithm::LmotsW1, LmotsAlgorithm::LmotsW2, LmotsAlgorithm::LmotsW4, LmotsAlgorithm::LmotsW8] {
+            let p = alg.construct_parameter::<Hh>().unwrap();
+            let n = Hh::OUTPUT_SIZE as usize;
+            let digest: Vec<u8> = (0..n).map(|i| (i * 37 + 11) as u8).collect();
+            let cached = p.fast_verify_eval_init();
+            let got = p.fast_verify_eval(&digest, &cached);
+            let full = p.append_checksum_to(&digest);
+            let want: u16 = (0..p.get_num_winternitz_chains()).map(|i| coef(full.as_slice(), i, p.get_winternitz()) as u16).sum();
+            if got != want {
+                return false;
+            }
+        }
+        true
+    }
+    assert!(catch_unwind(run::<Sha256_256>).unwrap_or(false), "n = 32");
+    assert!(catch_unwind(run::<Sha256_192>).unwrap_or(false), "fast_verify_eval panics or is wrong for n = 24");
+    assert!(catch_unwind(run::<Sha256_128>).unwrap_or(false), "fast_verify_eval panics or is wrong for n = 16");
+}
